@@ -578,3 +578,25 @@ MUTANTS += [
     {"id": "C06-benign-apply-debug-assert-reset", "prop": "C06", "benign": True,
      "edits": [(F, "            face = Face::default();\n", "            face = Face::default();\n            debug_assert!(face.fg.is_none() && face.attrs == FaceAttrs::EMPTY);\n")]},
 ]
+
+# ---------------- round 6: literals of sgr_color as named constants used as match patterns ----------------
+_SGR_COLOR_FN = "fn sgr_color<'a>(mut cmds: impl Iterator<Item = &'a [u8]>) -> Option<RGBA> {\n    match number_decode(cmds.next()?)? {\n        5 => {\n"
+
+
+def _sgr_color_consts(palette, rgb):
+    return ("const SGR_COLOR_PALETTE: usize = %d;\nconst SGR_COLOR_RGB: usize = %d;\n\n" % (palette, rgb)
+            + _SGR_COLOR_FN.replace("        5 => {\n", "        SGR_COLOR_PALETTE => {\n"))
+
+
+_CUBE_MUT = ("                index -= 16;\n                let ri = index / 36;\n                index -= ri * 36;\n                let gi = index / 6;\n"
+             "                index -= gi * 6;\n                let bi = index;\n")
+MUTANTS += [
+    {"id": "C06-benign-sgr-color-const-patterns", "prop": "C06", "benign": True,
+     "edits": [(D, _SGR_COLOR_FN, _sgr_color_consts(5, 2)), (D, "        2 => {\n            // true color\n", "        SGR_COLOR_RGB => {\n            // true color\n")]},
+    {"id": "C06-benign-sgr-color-cube-offset-div-mod", "prop": "C06", "benign": True,
+     "edits": [(D, "            let mut index = number_decode(cmds.next()?)?;\n            if index < 16 {", "            let index = number_decode(cmds.next()?)?;\n            if index < 16 {"),
+               (D, _CUBE_MUT, "                let offset = index - 16;\n                let ri = offset / 36;\n                let gi = offset / 6 % 6;\n                let bi = offset % 6;\n"
+                              "                debug_assert!(ri < CUBE.len() && gi < CUBE.len() && bi < CUBE.len());\n")]},
+    {"id": "C06-sgr-color-const-patterns-swapped", "prop": "C06", "expect": "SGR-COLOR/decoder::sgr_color",
+     "edits": [(D, _SGR_COLOR_FN, _sgr_color_consts(2, 5)), (D, "        2 => {\n            // true color\n", "        SGR_COLOR_RGB => {\n            // true color\n")]},
+]
